@@ -1407,6 +1407,9 @@ def _process_syntax_quoted_form(
         (basilisp.core/seq
          (basilisp.core/concat [& rest]))
 
+    The empty list is turned into:
+        (basilisp.core/list)
+
     Vectors are turned into:
         (basilisp.core/apply
          basilisp.core/vector
@@ -1431,6 +1434,9 @@ def _process_syntax_quoted_form(
     elif _is_unquote_splicing(form):
         raise ctx.syntax_error("Cannot splice outside collection")
     elif isinstance(form, llist.PersistentList):
+        if len(form) == 0:
+            # (seq (concat)) would yield nil rather than the empty list
+            return llist.l(_LIST)
         return llist.l(_SEQ, lconcat(_expand_syntax_quote(ctx, form)))
     elif isinstance(form, vec.PersistentVector):
         return llist.l(_APPLY, _VECTOR, lconcat(_expand_syntax_quote(ctx, form)))
